@@ -11,7 +11,8 @@ PROPS_FILES = ['Gin/Props/C09.lean']
 ANCHOR_FILES = ['config.py']
 RULE = ('1-4 real threads, each running its own random tree of nested `with gin.config_scope(arg)` blocks (arg: name, '
         "'a/b' shorthand, explicit list, None, '', invalid names / objects; depth up to 4), observations "
-        '(current_scope() plus the value a scoped probe configurable receives) and exceptions raised at random depth; '
+        '(current_scope() plus the value a scoped probe configurable receives; in half of the multi-thread cases also a call of '
+        'one shared scoped callable with a scheduling point inside the call) and exceptions raised at random depth; '
         'threads advance one scheduling group at a time under a deterministic baton scheduler following a random '
         'schedule; non-trivial = at least 2 threads and at least one turn of another thread falls while a thread is '
         'inside a block, or (single thread) an exception leaves at least 2 nested blocks; distinct = canonical case')
@@ -94,8 +95,11 @@ def gen_case(rng, nthreads=None):
       binds.append([sc, rng.randint(0, 99)])
   total = sum(count_groups(t) for t in threads)
   schedule = [rng.randrange(nt) for _ in range(total + rng.randint(0, 6))]
-  schedule += [t for t in range(nt) for _ in range(total)]  # let everybody finish
-  return {'dom': 'scopes', 'threads': threads, 'binds': binds, 'schedule': schedule}
+  shared = nt >= 2 and rng.random() < 0.5
+  # `_shared`: one scoped callable object (fetched once, under scope 'job') is called by every thread at every
+  # observation, with a scheduling point *inside* the call - other threads call it while a call is in progress
+  schedule += [t for t in range(nt) for _ in range(total * (2 if shared else 1))]  # let everybody finish
+  return {'dom': 'scopes', 'threads': threads, 'binds': binds, 'schedule': schedule, '_shared': shared}
 
 
 def count_groups(items):
@@ -184,6 +188,14 @@ def run_impl(case):
   n = len(case['threads'])
   st = Stepper(n)
   results = [None] * n
+  tids = {}
+  g['_inside'] = lambda: st.checkpoint(tids[threading.get_ident()]) if threading.get_ident() in tids else None
+  g['_scope'] = lambda: list(gin.current_scope())
+  exec('def g2(x=-1):\n  _inside()\n  return [x, _scope()]\n', g)  # pylint: disable=exec-used
+  gin.configurable(g['g2'])
+  gin.bind_parameter(('', 'pm.g2', 'x'), 111)
+  gin.bind_parameter(('job', 'pm.g2', 'x'), 777)
+  shared = gin.get_configurable('job/pm.g2') if case.get('_shared') else None
 
   def scope_arg(a):
     if a['k'] == 'name':
@@ -197,6 +209,8 @@ def run_impl(case):
     return a.get('v', 42)
 
   def worker(tid):
+    tids[threading.get_ident()] = tid
+    sobs = []
     early = {}
 
     def precreate(items):
@@ -228,6 +242,8 @@ def run_impl(case):
             fobs.append(None if fx == -1 else encode(fx, gin))
           # get_configurable captures the scope active now (by selector string or by function object)
           handle[0] = gin.get_configurable('pm.f' if len(obs) % 2 else f)
+          if shared is not None:
+            sobs.append(shared())
         elif it['k'] == 'raise':
           raise (Interrupt() if it.get('base') else Boom())
         else:
@@ -247,7 +263,7 @@ def run_impl(case):
       except Exception:  # pylint: disable=broad-except
         depth = None
       results[tid] = {'obs': obs, 'fobs': fobs, 'top': list(gin.current_scope()), 'depth': depth, 'outcome': outcome,
-                      'scope_str': gin.current_scope_str()}
+                      'scope_str': gin.current_scope_str(), 'sobs': sobs}
     except BaseException as e:  # pylint: disable=broad-except
       results[tid] = {'crash': core.err_class(e) + ': ' + str(e)}
     finally:
@@ -347,6 +363,10 @@ def oracle(case, impl):
     if got.get('fobs') != expected_fetched(obs):
       return (f'thread {tid}: a configurable fetched under one scope and called under another does not run in the scope '
               f'captured at fetch time: received {got.get("fobs")}, expected {expected_fetched(obs)}')
+    bad = [x for x in got.get('sobs', []) if x != [777, ['job']]]
+    if bad:
+      return (f'thread {tid}: the shared callable fetched under scope job must run in [job] and receive 777 whoever '
+              f'else is inside it at the time; it saw {bad[:3]}')
     if got['top'] != [] or got['scope_str'] != '':
       return f'thread {tid}: active scope after all blocks is {got["top"]} (outcome {got["outcome"]}), expected []'
     if (got['outcome'] == 'raised') != (not ok):
